@@ -466,6 +466,25 @@ def exportTiff (dtype : Option DType) (clip : Bool) (frames : List (List Rat)) (
       if exp.length = 0 then .error .value
       else .ok ((fr.zip (dead.zip (exposureTimesMs exp))).map fun t => ⟨encodeRange t.2.1.1 t.2.1.2, t.2.2, t.1⟩)
 
+/-! ### 9. the Software tag and the detection of legacy (Pylake < 1.3.2) files -/
+
+/-- `str.lower()` on ASCII. -/
+def lowerAscii (c : Char) : Char := if 65 ≤ c.toNat ∧ c.toNat ≤ 90 then Char.ofNat (c.toNat + 32) else c
+
+/-- `pat in s` for Python strings: is `pat` a prefix of some suffix? -/
+def hasSub (pat : List Char) : List Char → Bool
+  | [] => pat.isEmpty
+  | c :: cs => pat.isPrefixOf (c :: cs) || hasSub pat cs
+
+/-- `ImageStack._tiff_writer_kwargs()["software"]`: append `Pylake v<version>` unless some spelling of "pylake" is
+    already there. -/
+def softwareOut (sw ver : List Char) : List Char :=
+  if hasSub "pylake".toList (sw.map lowerAscii) then sw
+  else sw ++ (if sw.length > 0 then ", ".toList else []) ++ "Pylake v".toList ++ ver
+
+/-- `ImageDescription._legacy_exposure`: `"Pylake" in software and "Exposure time (ms)" not in json`. -/
+def legacyExposure (sw : List Char) (hasKey : Bool) : Bool := hasSub "Pylake".toList sw && !hasKey
+
 /-! ### protocol -/
 open Verif.Proto
 
@@ -541,6 +560,8 @@ def showOuts (l : List (OutPage Int)) : String := "[" ++ ";".intercalate (l.map 
   `c18.kymorange [s…] [e…]`  `Kymo._tiff_timestamp_ranges` from the line ranges: `a:b` or `ValueError`
   `c18.exporttiff <none|u8|u16|f32> <clip> [frame;frame;…] [dead starts] [dead stops] [exp starts] [exp stops]`
         the whole `export_tiff`: `ok [codes|p/q|v,…;…]` (DateTime characters, exposure double, pixels per page) or the error
+  `c18.software [codes] [version codes] <twice T/F>`  the Software tag `ImageStack.export_tiff` writes (after one / two exports)
+  `c18.islegacy [codes] <has exposure key T/F>`  `ImageDescription._legacy_exposure`
   `c18.kymoexp [s…] [e…]`  the "Exposure time (ms)" of a kymograph from its line ranges without dead time: `[p/q]`
   `c18.export <h> <w> [starts] [stops] [expStops] <legacy T/F> <again T/F> op…`
         run the selection program on a fresh stack over these pages (raw pixels = identifiers), export;
@@ -597,6 +618,13 @@ def handle : List String → Option String
           ",".intercalate (p.dt.map fun c => toString c.toNat) ++ "|" ++ showRat p.ms ++ "|" ++
           ",".intercalate (p.img.map showRat)) ++ "]")
       | .error e => some e.show
+  | ["c18.software", sw, ver, twice] => do
+    let sw ← chars? sw; let ver ← chars? ver; let twice ← bool? twice
+    let o := softwareOut sw ver
+    some (showChars (if twice then softwareOut o ver else o))
+  | ["c18.islegacy", sw, key] => do
+    let sw ← chars? sw; let key ← bool? key
+    some (showBool (legacyExposure sw key))
   | ["c18.kymoexp", s, e] => do
     let s ← intList? s; let e ← intList? e
     if s.length ≠ e.length then none
